@@ -635,8 +635,14 @@ func NewAddressPubKey(serializedPubKey []byte, net *chaincfg.Params) (*AddressPu
 	switch serializedPubKey[0] {
 	case 0x02, 0x03:
 		pkFormat = PKFCompressed
+	case 0x04:
 	case 0x06, 0x07:
 		pkFormat = PKFHybrid
+	default:
+		// bchec ignores the low bit of the format byte of a 65 byte key,
+		// so 0x05 parses as an uncompressed key that no serialization
+		// reproduces.
+		return nil, errors.New("invalid public key format byte")
 	}
 
 	return &AddressPubKey{
